@@ -850,6 +850,12 @@ fn gen_valid(rng: &mut StdRng, cparams_len: usize) -> Value {
     if script && rng.gen_bool(0.3) { outputs.push(out_abs("Variable", "", 0, 0, false, false)); }
     if kind == "Create" { outputs.push(out_abs("ContractCreated", "", 0, 0, true, true)); }
     outputs.shuffle(rng);
+    // now and then the change outputs are an INTERLEAVED duplicate - Change(a), Change(b), Change(a) - which the rule "at most
+    // one change output per asset" forbids just as it forbids adjacent ones (the specification decides; the generator only builds)
+    if script && assets.len() >= 2 && rng.gen_range(0..6) == 0 {
+        outputs.retain(|o| o["k"] != "Change");
+        for a in [&assets[0], &assets[1], &assets[0]] { outputs.push(out_abs("Change", a, 0, 0, false, false)); }
+    }
     // contract outputs moved by the shuffle keep pointing at their inputs (inputIndex is data, not position)
     let nslots = if kind == "Create" { rng.gen_range(0..4) } else { 0 };
     let mut keys: Vec<u8> = (0..nslots).map(|_| rng.gen_range(1..250)).collect();
